@@ -413,6 +413,14 @@ func parseCtl(data string, memoizer plugintypes.Memoizer) (ctlFunctionType, stri
 		if len(rxPattern) == 0 {
 			return ctlUnknown, "", 0, "", nil, errors.New("empty regex pattern in ctl collection key")
 		}
+		// Like the regex keys of rule targets: the keys of every collection but the ARGS family are
+		// matched lower-cased, so the expression has to be lower-cased as well.
+		switch collection {
+		case variables.Args, variables.ArgsNames, variables.ArgsGet, variables.ArgsPost,
+			variables.ArgsGetNames, variables.ArgsPostNames:
+		default:
+			rxPattern = strings.ToLower(rxPattern)
+		}
 		var err error
 		if memoizer != nil {
 			re, compileErr := memoizer.Do("re:"+rxPattern, func() (any, error) { return regexp.Compile(rxPattern) })
